@@ -10,7 +10,7 @@ from fractions import Fraction
 from .. import coqrun
 from ..core import Corr, TranslateError
 from ..coqrun import cz, cstr, clist, cbool
-from ..translate import ptable, srd144, periodgroup
+from ..translate import ptable, srd144, periodgroup, ptglue
 
 PID = "C01"
 ALLOWED_AXIOMS = set()
@@ -20,9 +20,13 @@ EXTRA_TARGETS = ["Model/PeriodicTable.vo", "Model/PeriodicTableFloat.vo"]
 
 TRUSTED = [
     "translators harness/translate/ptable.py (shipped arrays -> Gen/PTable.v), srd144.py (raw NIST JSON strings and the literal "
-    "data of build_periodic_table.py -> Gen/Srd144.v, verbatim), periodgroup.py (to_period/to_group ladders -> Gen/PeriodGroup.v)",
-    "hand-written model coq/Model/PeriodicTable.v of PeriodicTable.__init__/_resolve_atom_to_key/accessors and "
-    "coq/Common/PyAscii.v (ASCII str.capitalize/lower, CPython int(str) incl. 4300-digit limit), tied by differential execution",
+    "data of build_periodic_table.py -> Gen/Srd144.v, verbatim), periodgroup.py (to_period/to_group ladders -> Gen/PeriodGroup.v), "
+    "ptglue.py (__init__ dictionaries, the try/except cascade and strict filter of _resolve_atom_to_key, the bodies of to_mass/to_A/to_Z/to_E/"
+    "to_element, the alias names and keyword defaults -> Gen/PTGlue.v)",
+    "the combinators of coq/Model/PeriodicTableGlue.v (d[k], .capitalize(), int(), try/except/else, assert isinstance) as the meaning of those "
+    "Python constructs; the hand-written model coq/Model/PeriodicTable.v of __init__/_resolve_atom_to_key/accessors is PROVED equal to the "
+    "generated glue (C01_generated_glue_is_model, C01_generated_init_and_names) and additionally tied by differential execution; "
+    "coq/Common/PyAscii.v (ASCII str.capitalize/lower, CPython int(str) incl. 4300-digit limit) is tied by differential execution only",
     "CPython dict/zip/str/int/Decimal/float(str) semantics are modelled, not verified; float(mass) is modelled on the shipped digit string "
     "(Model/PeriodicTableFloat.v float_of_decstr -> Common/NearestDouble*.v, integer arithmetic), proved to be the nearest double of the "
     "fraction the string denotes, and compared exactly with the implementation's float (decomposed by math.frexp)",
@@ -41,6 +45,7 @@ def translate(ctx):
     ptable.generate(ctx.repo)
     srd144.generate(ctx.repo)
     periodgroup.generate(ctx.repo)
+    ptglue.generate(ctx.repo)     # Gen/PTGlue.v: __init__ dictionaries, the try/except cascade, strict filter, accessor bodies, alias names
 
 
 # ------------------------------------------------------------------------------------------------
@@ -69,20 +74,30 @@ def impl_observe(x):
     return observe_on(_pt(), x)
 
 
-def observe_on(pt, x):
-    o = {
-        "keyF": _call(pt._resolve_atom_to_key, x, strict=False), "keyT": _call(pt._resolve_atom_to_key, x, strict=True),
-        "ZF": _call(pt.to_Z, x, strict=False), "ZT": _call(pt.to_Z, x, strict=True),
-        "EF": _call(pt.to_E, x, strict=False), "ET": _call(pt.to_E, x, strict=True),
-        "nameF": _call(pt.to_element, x, strict=False), "nameT": _call(pt.to_element, x, strict=True),
-        "A": _call(pt.to_A, x), "mass": _call(pt.to_mass, x, return_decimal=True),
-        "period": _call(pt.to_period, x), "group": _call(pt.to_group, x),
-        "fmass": _call(pt.to_mass, x),
+def observe_on(pt, x, order=None):
+    """every public accessor on identifier x; `order` (a permutation of the observation names) makes the calls in another
+    order — the answers must not depend on it"""
+    calls = {
+        "keyF": lambda: _call(pt._resolve_atom_to_key, x, strict=False), "keyT": lambda: _call(pt._resolve_atom_to_key, x, strict=True),
+        "ZF": lambda: _call(pt.to_Z, x, strict=False), "ZT": lambda: _call(pt.to_Z, x, strict=True),
+        "EF": lambda: _call(pt.to_E, x, strict=False), "ET": lambda: _call(pt.to_E, x, strict=True),
+        "nameF": lambda: _call(pt.to_element, x, strict=False), "nameT": lambda: _call(pt.to_element, x, strict=True),
+        "A": lambda: _call(pt.to_A, x), "mass": lambda: _call(pt.to_mass, x, return_decimal=True),
+        "period": lambda: _call(pt.to_period, x), "group": lambda: _call(pt.to_group, x),
+        "fmass": lambda: _call(pt.to_mass, x),
         # the documented aliases
-        "aZ": _call(pt.to_atomic_number, x), "aE": _call(pt.to_symbol, x), "aname": _call(pt.to_name, x),
-        "aA": _call(pt.to_mass_number, x),
+        "aZ": lambda: _call(pt.to_atomic_number, x), "aE": lambda: _call(pt.to_symbol, x), "aname": lambda: _call(pt.to_name, x),
+        "aA": lambda: _call(pt.to_mass_number, x),
+        # defaults: strict and return_decimal omitted (positional strict too)
+        "dZ": lambda: _call(pt.to_Z, x), "dE": lambda: _call(pt.to_E, x), "dname": lambda: _call(pt.to_element, x),
+        "pZT": lambda: _call(pt.to_Z, x, True), "dfmass": lambda: _call(pt.to_mass, x, return_decimal=False),
     }
-    return o
+    got = {k: calls[k]() for k in (order or list(calls))}
+    return {k: got[k] for k in calls}
+
+
+OBS_NAMES = ["keyF", "keyT", "ZF", "ZT", "EF", "ET", "nameF", "nameT", "A", "mass", "period", "group", "fmass", "aZ", "aE", "aname", "aA",
+             "dZ", "dE", "dname", "pZT", "dfmass"]
 
 
 class Unrenderable(Exception):
@@ -294,6 +309,22 @@ class Spec:
         self.by_name = {n: e for _, e, n in self.elements}
         self.E = {e for _, e, _ in self.elements}
 
+    def step(self, x):
+        """which rung of the model's cascade answers x (branch hit counts in the evidence)"""
+        if isinstance(x, str) and x.capitalize() in self.species:
+            return "model_step1_label"
+        try:
+            z = int(x)
+        except ValueError:
+            z = None
+        if z is not None and z in self.by_Z:
+            return "model_step2_int" if isinstance(x, int) else "model_step2_digit_string"
+        if isinstance(x, str) and x.capitalize() in self.by_name:
+            return "model_step3_name"
+        if isinstance(x, int):
+            return "model_reject_int"
+        return "model_reject_int_literal" if z is not None else "model_reject_text"
+
     def expect(self, x):
         """None if x names nothing, else (key, record) by the documented cascade semantics."""
         if isinstance(x, str):
@@ -315,6 +346,9 @@ class Spec:
 
 def oracle(spec, x, o):
     """The property on the implementation's answers for identifier x. Returns None or a description."""
+    for d, e in (("dZ", "ZF"), ("dE", "EF"), ("dname", "nameF"), ("pZT", "ZT"), ("dfmass", "fmass")):
+        if d in o and (o[d] != o[e] or type(o[d][1]) is not type(o[e][1])):
+            return f"{d}: the call with the keyword omitted / positional gives {o[d]!r}, the explicit form {e} gives {o[e]!r}"
     exp = spec.expect(x)
     nonstrict = {"keyF": None, "ZF": None, "EF": None, "nameF": None, "A": None, "mass": None, "period": None,
                  "group": None, "fmass": None, "aZ": None, "aE": None, "aname": None, "aA": None}
@@ -506,7 +540,9 @@ def run_sequences(ctx, spec, corr, groups):
                     corr.errors.append(f"cannot construct a fresh PeriodicTable: {e!r}")
                     return
                 for i, x in enumerate(seq):
-                    o = observe_on(pt, x)
+                    order = list(OBS_NAMES)
+                    ctx.rng.shuffle(order)       # the accessors in a random order: no accessor may leave state for another
+                    o = observe_on(pt, x, order)
                     corr.count("history-sequences")
                     if isinstance(x, float):
                         corr.hit("history_maker_float")
@@ -514,7 +550,7 @@ def run_sequences(ctx, spec, corr, groups):
                         continue
                     bad = oracle(spec, x, o)
                     if bad:
-                        corr.failures.append({"stream": "history", "case": {"atom": x, "history": seq[:i], "fresh_table": fresh},
+                        corr.failures.append({"stream": "history", "case": {"atom": x, "history": seq[:i], "fresh_table": fresh, "order": order},
                                               "what": bad + "  [after the earlier calls listed in case.history]", "observed": orepr(o)})
 
 
@@ -616,6 +652,8 @@ def correspond(ctx):
     memo = {}
     terms, meta = [], []
     fterms, fmeta = [], []
+    import collections
+    recent = collections.deque(maxlen=60)    # the identifiers issued just before (part of a failing input that depends on earlier calls)
     for stream, x in cases:
         key = (type(x).__name__, x)
         if key in seen:
@@ -629,10 +667,23 @@ def correspond(ctx):
             corr.hit("resolved_nuclide" if o["keyT"][0] == "Err" else "resolved_element")
         else:
             corr.hit("rejected_" + o["keyF"][1])
+        corr.hit(spec.step(x))
+        if o["keyF"][0] == "Ok" and o["keyT"][0] == "Err":
+            corr.hit("model_strict_filter_rejects")
         bad = oracle(spec, x, o)
         if bad:
-            corr.failures.append({"stream": "oracle", "case": {"atom": x, "history": collide_history(x)}, "what": bad,
+            hist = collide_history(x)
+            if len(corr.failures) < 200:
+                # does a fresh table give the same wrong answer?  if not, the failure depends on earlier calls: keep them in the case
+                try:
+                    stateless = bool(oracle(spec, x, observe_on(type(_pt())(), x)))
+                except Exception:  # noqa: BLE001
+                    stateless = True
+                if not stateless:
+                    hist = hist + list(recent)
+            corr.failures.append({"stream": "oracle", "case": {"atom": x, "history": hist}, "what": bad,
                                   "observed": {k: repr(v) for k, v in o.items()}})
+        recent.append(x)
         if isinstance(x, str) and not all(ord(ch) < 128 for ch in x):
             continue  # non-ASCII: implementation + oracle only (outside the modelled domain)
         try:
@@ -757,10 +808,10 @@ def replay(ctx, rp):
     x = rp["case"]["atom"]
     hist = rp["case"].get("history") or []
     spec = Spec(ctx.repo)
-    pt = _pt()
+    pt = type(_pt())() if rp["case"].get("fresh_table") else _pt()
     for h in hist:  # JSON keeps int / float / str apart; the history-makers' own answers are not judged
         observe_on(pt, h)
-    o = observe_on(pt, x)
+    o = observe_on(pt, x, rp["case"].get("order"))
     bad = oracle(spec, x, o)
     return {"atom": x, "history": hist, "implementation": {k: repr(v) for k, v in o.items()}, "oracle": bad, "fails": bool(bad)}
 
@@ -787,14 +838,30 @@ LEVEL_TEXT = (
     "ALL positive decimals in the normal exponent range, 53-bit significand always); C01_period_group_standard / C01_ladder_is_reference "
     "(translated ladder = 18-column reference written from noble-gas boundaries, Z=1..118); C01_strict_exact, C01_strict_rejects_nuclides; "
     "C01_resolve_sound, C01_resolve_rejects, C01_resolve_accepts_iff, C01_int_outside_rejected, C01_str_outside_rejected, C01_mass_number_in_front_rejected, "
-    "C01_decimal_strings_rejected (unbounded over identifiers); C01_fails_closed (only NotAnElementError can escape). The model is tied to "
+    "C01_decimal_strings_rejected (unbounded over identifiers); C01_fails_closed (only NotAnElementError can escape). Wave 3: "
+    "C01_generated_glue_is_model and C01_generated_init_and_names (the try/except cascade, strict filter, all five accessor bodies, the seven "
+    "dict(zip()) index dictionaries, alias names and keyword defaults, TRANSLATED from periodic_table.py on every run, equal the hand model for ALL "
+    "identifiers and options); C01_alias_invariance_every_accessor, C01_public_entry_points_alias_invariant, C01_nuclide_alias_every_accessor "
+    "(alias invariance through every accessor incl. Decimal/float/raw-string mass, period, group, strict on/off, also on the generated entry points); "
+    "C01_unnamed_rejected_by_every_accessor, C01_public_strict_exact, C01_lettered_unnamed_rejected, C01_absent_mass_number_rejected (all strings "
+    "with a letter, resp. a letter and a digit, that are no tabulated label/name); C01_faithful_bare_element_all_aliases, "
+    "C01_float_is_rounded_decimal, C01_faithful_isotopes_float. The model is tied to "
     "periodic_table.py by exhaustive differential execution (every row and label x alias forms x letter cases x 12 observations + the float "
     "mass, int()-grammar spellings, invalid identifiers) and the int()/capitalize/str models are fuzzed against CPython; the property oracle "
     "(raw NIST JSON, standard layout, correctly rounded float mass via exact integer arithmetic) is evaluated directly on the "
     "implementation's answers.")
 LEVEL_NOTE = (
-    "Trusted: Coq kernel + vm_compute; the three fail-closed translators; the hand-written model of the try/except cascade, dict(zip()) "
-    "and accessors and of ASCII str.capitalize / CPython int(str) (differentially tested, not verified); the Gallina specification functions "
+    "Clause map (full version at the top of coq/Props/C01.v): (a) every alias form and letter case -> same species: C01_case_insensitive, "
+    "C01_alias_invariance(_every_accessor), C01_public_entry_points_alias_invariant, C01_nuclide_labels_resolve, C01_nuclide_alias_every_accessor, "
+    "C01_digit_string_is_int; (b) values are NIST's: C01_faithful_isotopes(_float), C01_float_*; C01_only_srd_species; (c) bare element = default isotope: "
+    "C01_faithful_bare_element(_all_aliases), C01_default_isotope_rule; (d) period/group: C01_period_group_standard, C01_ladder_is_reference; (e) strict: "
+    "C01_strict_exact, C01_strict_rejects_nuclides, C01_public_strict_exact; (f) unnamed -> NotAnElementError: C01_resolve_sound/_rejects/_accepts_iff, "
+    "C01_unnamed_rejected_by_every_accessor and the family theorems; (g) public entry points = model: C01_generated_glue_is_model. ONLY correspondence/"
+    "oracle: answers do not depend on earlier calls on the same object (history streams: fresh table vs singleton, float-then-string, failed-then-valid, "
+    "both orders) — the model is a pure function, so no theorem can state it. "
+    "Trusted: Coq kernel + vm_compute; the four fail-closed translators; the combinator reading of the Python constructs of the glue "
+    "(Model/PeriodicTableGlue.v; the hand-written cascade/accessor model is proved equal to the generated glue); the model of ASCII str.capitalize / "
+    "CPython int(str) (differentially tested, not verified); the Gallina specification functions "
     "(value_part, most_abundant with exact decimal comparison where the build script compares floats, i_labels, ref_period/ref_group). "
     "Nearest-double: rounding and 53-bit normalisation are proved for all positive decimals; only the exponent-range condition is evaluated per "
     "table entry; that CPython float(str) is this function is tied by exact comparison of every tabulated mass, not proved. "
